@@ -801,6 +801,7 @@ func TestC06(t *testing.T) {
 		rec.Set("exhaustive_probe_scripts_len", int64(M))
 	}
 
+	defer c06ProxyPart(t, rec) // last: see there
 	rapid.Check(t, func(rt *rapid.T) {
 		sc := c06Gen(rt)
 		rec.Sample(sc)
